@@ -477,7 +477,10 @@ pub fn run_c08(ctx: &Ctx) -> Report {
             alphabet.len(),
             |s, i| bfs_step(s, &alphabet[i]),
             |s| key_of(&s.sc, &[hash64(&s.rf)]),
-            2_000_000,
+            // (the real scanner has 129 resp. 4097 states here; a change that multiplies the state
+            // space, e.g. a counter, must not turn the check into an hours-long run: the cap ends the
+            // search - without a verdict from this sub-check - and the repetition probes take over)
+            if full { 300_000 } else { 30_000 },
         );
         let mut sub = Sub::new(
             &format!("bfs_channel_{}", ch),
@@ -519,7 +522,7 @@ pub fn run_c08(ctx: &Ctx) -> Report {
             alphabet.len(),
             |s, i| bfs_step(s, &alphabet[i]),
             |s| key_of(&s.sc, &[hash64(&s.rf)]),
-            200_000,
+            30_000,
         );
         let mut sub = Sub::new(
             "repetition_probes",
